@@ -33,6 +33,23 @@ pub fn test(reg: &Reg, case: &Case, mut stats: Option<&mut Stats>) -> Verdict {
             return Verdict::Violation(format!("C03|{sig}"), json!({"what": what, "k": k, "history_with_break": history(&outk.trace)}));
         }
     }
+    // EVERY answer sequence when the keep-going run has few decisions (2^n scripts, n <= 6)
+    if n >= 2 && n <= 6 {
+        for mask in 0u32..(1u32 << n) {
+            let sc = Script { answers: (0..n).map(|i| mask & (1 << i) == 0).collect(), default: true };
+            if sc.is_all_continue() {
+                continue;
+            }
+            let o = oracles::run(e, &case.payload, src, &sc);
+            execs += 1;
+            if let Err((sig, what)) = oracles::c03_random(e, &case.payload, src, &o) {
+                return Verdict::Violation(sig, json!({"what": what, "script": sc.show(), "history": history(&o.trace)}));
+            }
+            if let Err((sig, what)) = oracles::c01(e, &case.payload, &o) {
+                return Verdict::Violation(format!("C03|{sig}"), json!({"what": what, "script": sc.show(), "history": history(&o.trace)}));
+            }
+        }
+    }
     // the case's own (arbitrary) script
     if !case.script.is_all_continue() {
         let outr = oracles::run(e, &case.payload, src, &case.script);
@@ -120,7 +137,7 @@ pub fn run(tier: Tier) -> i32 {
     drive(
         "C03",
         tier,
-        "cases = (type, payload, source); for each: the keep-going run T_inf with n decisions, then EVERY switch position k in 0..n (Continue^k then Break forever), plus the case's arbitrary script; \
+        "cases = (type, payload, source); for each: the keep-going run T_inf with n decisions, then EVERY switch position k in 0..n (Continue^k then Break forever), EVERY one of the 2^n answer sequences when n <= 6, plus the case's arbitrary script; \
          oracle: history up to decision k identical to T_inf; afterwards only hand-overs of the error just built, climbing towards the root (no report, no payload visit, no user-function call); Err returned and built from exactly the reports so far; \
          deserialize with JsonError / QueryParamError == public-API rendering of the first report of T_inf; non-trivial = n >= 3, or a report in a payload of >= 4 nodes; distinct by (type, payload)",
         (400_000, 6_000_000),
